@@ -177,7 +177,9 @@ let handle (line:string) : string =
       let es = List.map (fun e -> bytes_of_hex (atom e)) evs in
       let f = nat_of_int (int_of_string fuel) in
       let s = static_okb c in
-      b2s s ^ b2s (s && run_guardb c es f) ^ b2s (s && run_completeb c es f)
+      let si = static_ib c in   (* run_conforms_initial: documents with <initial> elements, deep/multiple initial attributes *)
+      b2s s ^ b2s (s && run_guardb c es f) ^ b2s (s && run_completeb c es f) ^
+      b2s si ^ b2s (si && run_guardb c es f && run_completeb c es f)
   | Atom "reach" :: Atom late :: tree :: _ ->
       (* which theorems' hypotheses the document / its flat tables satisfy *)
       let t = tree_of tree in
